@@ -197,6 +197,12 @@ def run(ck):
     fc.definedness_obligations()
     fc.crosscheck(n)
 
+    # the tau energy that feeds the kinematics: Taus.tau_energy under its own contract (shared with C04): energy at the
+    # event's own angle (clamped only below the table), arguments untouched (the same beta array goes on to altDec)
+    from contracts import C04
+
+    C04.tau_energy_obligations(ck)
+
     # EAS.altDec
     ev = {"beta": (0.0, 0.7330382858376184), "bt": (1e-6, 1.0), "g": (1.0, 1e10), "u": (1e-12, 1.0)}
     for explicit in (True, False):
